@@ -147,11 +147,34 @@ def parse_point(ts, k=0):
     return p, k + 1
 
 
+# legal variable names (non-empty strings of word characters) that are NOT in NFKC normal form, that differ
+# from one another only after normalisation or case folding, or that are Python keywords: a library that normalises,
+# folds or mangles names somewhere (and not everywhere) confuses them
+UNUSUAL_NAMES = {
+    9001: '\u00b5',        # MICRO SIGN            (NFKC: GREEK SMALL LETTER MU)
+    9002: '\u03bc',        # GREEK SMALL LETTER MU (already normal: a different variable from 9001)
+    9003: 'x\u00b2',       # x SUPERSCRIPT TWO     (NFKC: x2)
+    9004: 'x2',
+    9005: '\uff58',        # FULLWIDTH x           (NFKC: x)
+    9006: 'x',
+    9007: '\ufb01',        # LIGATURE fi           (NFKC: fi)
+    9008: 'X',             # differs from 9006 by case only
+    9009: 'lambda',        # a keyword
+    9010: '_',
+    9011: '\u212b',        # ANGSTROM SIGN         (NFKC: LATIN CAPITAL A WITH RING)
+}
+_UNUSUAL_IDS = {v: k for k, v in UNUSUAL_NAMES.items()}
+
+
 def name_of(i):
+    if i in UNUSUAL_NAMES:
+        return UNUSUAL_NAMES[i]
     return 'whatever' if i == 1 else 'v%d' % i
 
 
 def id_of(name):
+    if name in _UNUSUAL_IDS:
+        return _UNUSUAL_IDS[name]
     if name == 'whatever':
         return 1
     if name.startswith('v') and name[1:].isdigit():
